@@ -12,17 +12,17 @@ namespace Simpleline
 /-! ### the configuration a step ends in, whether it continues or halts -/
 
 /-- the configuration inside a step result -/
-def outCfg : Except (Outcome × Cfg) Cfg → Cfg
+def sOutCfg : Except (Outcome × Cfg) Cfg → Cfg
   | .ok c => c
   | .error (_, c) => c
 
-@[simp] theorem outCfg_ok (c : Cfg) : outCfg (.ok c) = c := rfl
-@[simp] theorem outCfg_error (o : Outcome) (c : Cfg) : outCfg (.error (o, c)) = c := rfl
+@[simp] theorem sOutCfg_ok (c : Cfg) : sOutCfg (.ok c) = c := rfl
+@[simp] theorem sOutCfg_error (o : Outcome) (c : Cfg) : sOutCfg (.error (o, c)) = c := rfl
 
-theorem outCfg_of_ok {r : Except (Outcome × Cfg) Cfg} {c : Cfg} (h : r = .ok c) : c = outCfg r := by
+theorem sOutCfg_of_ok {r : Except (Outcome × Cfg) Cfg} {c : Cfg} (h : r = .ok c) : c = sOutCfg r := by
   subst h; rfl
-theorem outCfg_of_error {r : Except (Outcome × Cfg) Cfg} {o : Outcome} {c : Cfg} (h : r = .error (o, c)) :
-    c = outCfg r := by
+theorem sOutCfg_of_error {r : Except (Outcome × Cfg) Cfg} {o : Outcome} {c : Cfg} (h : r = .error (o, c)) :
+    c = sOutCfg r := by
   subst h; rfl
 
 /-- the environment transition, totalised the way `emit` and `take` use it -/
@@ -32,15 +32,15 @@ theorem deliver_eq_dlv {c c' : Cfg} (h : c.deliver = some c') : c' = c.dlv := by
   simp [Cfg.dlv, h]
 
 /-- the configuration after raising an exception (caught or not) -/
-def raised (k : Kind) (c : Cfg) : Cfg := outCfg (c.raise k)
+def raised (k : Kind) (c : Cfg) : Cfg := sOutCfg (c.raise k)
 
-@[simp] theorem outCfg_raise (c : Cfg) (k : Kind) : outCfg (c.raise k) = raised k c := rfl
+@[simp] theorem sOutCfg_raise (c : Cfg) (k : Kind) : sOutCfg (c.raise k) = raised k c := rfl
 
-theorem Trans_cases {P : Prog} {c c' : Cfg} (h : Trans P c c') : c' = outCfg (step P c) ∨ c' = c.dlv := by
+theorem Trans_cases {P : Prog} {c c' : Cfg} (h : Trans P c c') : c' = sOutCfg (step P c) ∨ c' = c.dlv := by
   cases h with
-  | step h => exact .inl (outCfg_of_ok h)
+  | step h => exact .inl (sOutCfg_of_ok h)
   | deliver h => exact .inr (deliver_eq_dlv h)
-  | halt h => exact .inl (outCfg_of_error h)
+  | halt h => exact .inl (sOutCfg_of_error h)
 
 /-! ### scheduler part of the trace, callback part of the log -/
 
@@ -247,12 +247,12 @@ theorem emit_log_suffix (P : Prog) (c : Cfg) (e : Ev) : e :: c.log <:+ (c.emit P
 /-! ### exceptions -/
 
 theorem unwind_frame (k : Kind) (code : List Instr) (c : Cfg) :
-    (outCfg (unwind k code c)).A = c.A ∧ (outCfg (unwind k code c)).log = c.log ∧
-    (outCfg (unwind k code c)).retSetup = c.retSetup ∧ (outCfg (unwind k code c)).retPromptNone = c.retPromptNone ∧
-    (outCfg (unwind k code c)).retInput = c.retInput ∧ (outCfg (unwind k code c)).retKey = c.retKey ∧
-    (outCfg (unwind k code c)).retAction = c.retAction ∧
-    (outCfg (unwind k code c)).code <:+ code ∧
-    schedTr (outCfg (unwind k code c)).tr = schedTr c.tr ∧ c.tr <:+ (outCfg (unwind k code c)).tr := by
+    (sOutCfg (unwind k code c)).A = c.A ∧ (sOutCfg (unwind k code c)).log = c.log ∧
+    (sOutCfg (unwind k code c)).retSetup = c.retSetup ∧ (sOutCfg (unwind k code c)).retPromptNone = c.retPromptNone ∧
+    (sOutCfg (unwind k code c)).retInput = c.retInput ∧ (sOutCfg (unwind k code c)).retKey = c.retKey ∧
+    (sOutCfg (unwind k code c)).retAction = c.retAction ∧
+    (sOutCfg (unwind k code c)).code <:+ code ∧
+    schedTr (sOutCfg (unwind k code c)).tr = schedTr c.tr ∧ c.tr <:+ (sOutCfg (unwind k code c)).tr := by
   induction code with
   | nil => unfold unwind; cases k <;> simp
   | cons ins rest ih =>
@@ -268,7 +268,7 @@ theorem unwind_frame (k : Kind) (code : List Instr) (c : Cfg) :
       exact ⟨h1, h2, h3, h4, h5, h6, h7, h8.trans (List.suffix_cons _ _), h9, h10⟩
 
 theorem raised_eq (k : Kind) (c : Cfg) :
-    raised k c = outCfg (unwind k c.code (if k = .exit then c.trace .exit else c)) := by
+    raised k c = sOutCfg (unwind k c.code (if k = .exit then c.trace .exit else c)) := by
   cases k <;> rfl
 
 theorem raised_frame (k : Kind) (c : Cfg) :
@@ -331,18 +331,18 @@ theorem setScr_scr (A : AppSt) (i : Nat) (f : ScreenObj → ScreenObj) (j : Nat)
     simpa using getD_pad _ _ _ _
 
 theorem startRequest_frame (c : Cfg) (ih : Nat) (r : Src) (t : Str) :
-    (outCfg (startRequest c ih r t)).A.stack = c.A.stack ∧
-    (outCfg (startRequest c ih r t)).A.nextEid = c.A.nextEid ∧
-    (outCfg (startRequest c ih r t)).A.screens = c.A.screens ∧
-    (outCfg (startRequest c ih r t)).log = c.log ∧
-    (outCfg (startRequest c ih r t)).retSetup = c.retSetup ∧
-    (outCfg (startRequest c ih r t)).retPromptNone = c.retPromptNone ∧
-    (outCfg (startRequest c ih r t)).retInput = c.retInput ∧
-    (outCfg (startRequest c ih r t)).retKey = c.retKey ∧
-    (outCfg (startRequest c ih r t)).retAction = c.retAction ∧
-    (outCfg (startRequest c ih r t)).code <:+ c.code ∧
-    schedTr (outCfg (startRequest c ih r t)).tr = schedTr c.tr ∧
-    c.tr <:+ (outCfg (startRequest c ih r t)).tr := by
+    (sOutCfg (startRequest c ih r t)).A.stack = c.A.stack ∧
+    (sOutCfg (startRequest c ih r t)).A.nextEid = c.A.nextEid ∧
+    (sOutCfg (startRequest c ih r t)).A.screens = c.A.screens ∧
+    (sOutCfg (startRequest c ih r t)).log = c.log ∧
+    (sOutCfg (startRequest c ih r t)).retSetup = c.retSetup ∧
+    (sOutCfg (startRequest c ih r t)).retPromptNone = c.retPromptNone ∧
+    (sOutCfg (startRequest c ih r t)).retInput = c.retInput ∧
+    (sOutCfg (startRequest c ih r t)).retKey = c.retKey ∧
+    (sOutCfg (startRequest c ih r t)).retAction = c.retAction ∧
+    (sOutCfg (startRequest c ih r t)).code <:+ c.code ∧
+    schedTr (sOutCfg (startRequest c ih r t)).tr = schedTr c.tr ∧
+    c.tr <:+ (sOutCfg (startRequest c ih r t)).tr := by
   unfold startRequest
   simp only []
   split
@@ -356,31 +356,31 @@ theorem startRequest_frame (c : Cfg) (ih : Nat) (r : Src) (t : Str) :
 @[simp] theorem setScr_nextEid (A : AppSt) (i : Nat) (f : ScreenObj → ScreenObj) : (A.setScr i f).nextEid = A.nextEid := rfl
 
 @[simp] theorem startRequest_stack (c : Cfg) (ih : Nat) (r : Src) (t : Str) :
-    (outCfg (startRequest c ih r t)).A.stack = c.A.stack := (startRequest_frame c ih r t).1
+    (sOutCfg (startRequest c ih r t)).A.stack = c.A.stack := (startRequest_frame c ih r t).1
 @[simp] theorem startRequest_nextEid (c : Cfg) (ih : Nat) (r : Src) (t : Str) :
-    (outCfg (startRequest c ih r t)).A.nextEid = c.A.nextEid := (startRequest_frame c ih r t).2.1
+    (sOutCfg (startRequest c ih r t)).A.nextEid = c.A.nextEid := (startRequest_frame c ih r t).2.1
 @[simp] theorem startRequest_screens (c : Cfg) (ih : Nat) (r : Src) (t : Str) :
-    (outCfg (startRequest c ih r t)).A.screens = c.A.screens := (startRequest_frame c ih r t).2.2.1
+    (sOutCfg (startRequest c ih r t)).A.screens = c.A.screens := (startRequest_frame c ih r t).2.2.1
 @[simp] theorem startRequest_scr (c : Cfg) (ih : Nat) (r : Src) (t : Str) (i : Nat) :
-    (outCfg (startRequest c ih r t)).A.scr i = c.A.scr i := by simp [AppSt.scr]
+    (sOutCfg (startRequest c ih r t)).A.scr i = c.A.scr i := by simp [AppSt.scr]
 @[simp] theorem startRequest_log (c : Cfg) (ih : Nat) (r : Src) (t : Str) :
-    (outCfg (startRequest c ih r t)).log = c.log := (startRequest_frame c ih r t).2.2.2.1
+    (sOutCfg (startRequest c ih r t)).log = c.log := (startRequest_frame c ih r t).2.2.2.1
 @[simp] theorem startRequest_retSetup (c : Cfg) (ih : Nat) (r : Src) (t : Str) :
-    (outCfg (startRequest c ih r t)).retSetup = c.retSetup := (startRequest_frame c ih r t).2.2.2.2.1
+    (sOutCfg (startRequest c ih r t)).retSetup = c.retSetup := (startRequest_frame c ih r t).2.2.2.2.1
 @[simp] theorem startRequest_retPromptNone (c : Cfg) (ih : Nat) (r : Src) (t : Str) :
-    (outCfg (startRequest c ih r t)).retPromptNone = c.retPromptNone := (startRequest_frame c ih r t).2.2.2.2.2.1
+    (sOutCfg (startRequest c ih r t)).retPromptNone = c.retPromptNone := (startRequest_frame c ih r t).2.2.2.2.2.1
 @[simp] theorem startRequest_retInput (c : Cfg) (ih : Nat) (r : Src) (t : Str) :
-    (outCfg (startRequest c ih r t)).retInput = c.retInput := (startRequest_frame c ih r t).2.2.2.2.2.2.1
+    (sOutCfg (startRequest c ih r t)).retInput = c.retInput := (startRequest_frame c ih r t).2.2.2.2.2.2.1
 @[simp] theorem startRequest_retKey (c : Cfg) (ih : Nat) (r : Src) (t : Str) :
-    (outCfg (startRequest c ih r t)).retKey = c.retKey := (startRequest_frame c ih r t).2.2.2.2.2.2.2.1
+    (sOutCfg (startRequest c ih r t)).retKey = c.retKey := (startRequest_frame c ih r t).2.2.2.2.2.2.2.1
 @[simp] theorem startRequest_retAction (c : Cfg) (ih : Nat) (r : Src) (t : Str) :
-    (outCfg (startRequest c ih r t)).retAction = c.retAction := (startRequest_frame c ih r t).2.2.2.2.2.2.2.2.1
+    (sOutCfg (startRequest c ih r t)).retAction = c.retAction := (startRequest_frame c ih r t).2.2.2.2.2.2.2.2.1
 theorem startRequest_code_suffix (c : Cfg) (ih : Nat) (r : Src) (t : Str) :
-    (outCfg (startRequest c ih r t)).code <:+ c.code := (startRequest_frame c ih r t).2.2.2.2.2.2.2.2.2.1
+    (sOutCfg (startRequest c ih r t)).code <:+ c.code := (startRequest_frame c ih r t).2.2.2.2.2.2.2.2.2.1
 @[simp] theorem startRequest_schedTr (c : Cfg) (ih : Nat) (r : Src) (t : Str) :
-    schedTr (outCfg (startRequest c ih r t)).tr = schedTr c.tr := (startRequest_frame c ih r t).2.2.2.2.2.2.2.2.2.2.1
+    schedTr (sOutCfg (startRequest c ih r t)).tr = schedTr c.tr := (startRequest_frame c ih r t).2.2.2.2.2.2.2.2.2.2.1
 theorem startRequest_tr_suffix (c : Cfg) (ih : Nat) (r : Src) (t : Str) :
-    c.tr <:+ (outCfg (startRequest c ih r t)).tr := (startRequest_frame c ih r t).2.2.2.2.2.2.2.2.2.2.2
+    c.tr <:+ (sOutCfg (startRequest c ih r t)).tr := (startRequest_frame c ih r t).2.2.2.2.2.2.2.2.2.2.2
 
 @[simp] theorem suffix_cons2 {α} (a b : α) (l : List α) : l <:+ a :: b :: l :=
   (List.suffix_cons _ _).trans (List.suffix_cons _ _)
